@@ -8,7 +8,7 @@ VERIF = os.path.dirname(os.path.abspath(__file__))
 P = {
  "C01": dict(
   technique="property-based testing (rapid): grammar-based + mutation-based string generation against a reference recogniser; coverage-guided native fuzzing in the thorough tier",
-  text="Generated-input search against an independent membership oracle. 250k strings per quick run (30% valid by construction, 50% 1-3 structured edits of a valid vector with 18 mutation operators covering every grammar position, 10% cross-version token soup, 10% raw bytes), each offered to all four parsers; the oracle is a split-based recogniser written from the grammar in the property, cross-checked against anchored regular expressions. Also asserts the result shape (object xor error) and no panic. Thorough: 16 shards x 1.5M strings plus 150 s of coverage-guided fuzzing with the oracle inside the target. Sampling of an infinite language: no completeness claim.",
+  text="Generated-input search against an independent membership oracle. 250k strings per quick run (30% valid by construction, 50% 1-3 structured edits of a valid vector with 18 mutation operators covering every grammar position, 10% cross-version token soup, 10% raw bytes), each offered to all four parsers; the oracle is a split-based recogniser written from the grammar in the property, cross-checked against anchored regular expressions. Plus, every run, the COMPLETE one-edit neighbourhood (every byte deleted / replaced / inserted from a 61-byte alphabet, every truncation, every element deleted / duplicated anywhere / moved anywhere / swapped, empty elements, 25 header shapes) of 17 representative vectors covering every layout: about 173,000 strings. Also asserts the result shape (object xor error) and no panic. Thorough: 16 shards x 1.5M strings plus 150 s of coverage-guided fuzzing with the oracle inside the target. Sampling of an infinite language: no completeness claim.",
   note="Trusted base: spec/grammar.go (reference recognisers). rapid v1.3.0 for generation/shrinking.", ref="4 C01"),
  "C02": dict(
   technique="stateful property-based testing (rapid operation histories) with a round-trip oracle; exhaustive pair grids; complete v2 enumeration in the thorough tier",
@@ -28,7 +28,7 @@ P = {
   note="Trusted base: spec/score2.go (guide section 3.2 equations).", ref="4 C05"),
  "C06": dict(
   technique="property-based testing (rapid): vectors built by construction from a known assignment; oracle = the generator's assignment / the reference parser",
-  text="60k vectors per version per quick run, built from a known assignment (all v2 layouts incl. all-ND and one-defined groups, shuffled v3 order, explicit X, every U spelling); after ParseVector every Get must return the written value or ND/X. The C01 string mix filtered through the reference parser adds non-constructed accepted strings. Coverage requirement enforced: every (metric,value) pair written and every optional metric omitted at least once, else the run is inconclusive.",
+  text="60k vectors per version per quick run, built from a known assignment (all v2 layouts incl. all-ND and one-defined groups, shuffled v3 order, explicit X, every U spelling); after ParseVector every Get must return the written value or ND/X. The C01 string mix filtered through the reference parser adds non-constructed accepted strings, and an exhaustive grid (every ordered pair of metrics x every pair of values; for v3 the pair is written first, in that order) exposes a Set that disturbs an earlier-written metric. Coverage requirement enforced: every (metric,value) pair written and every optional metric omitted at least once, else the run is inconclusive.",
   note="Trusted base: spec/tables.go, spec/grammar.go. Conditional on acceptance (rejection of a valid vector is C01's).", ref="4 C06"),
  "C07": dict(
   technique="model-based stateful property testing (rapid histories against a map model) plus exhaustive ordered pair grids",
@@ -40,7 +40,7 @@ P = {
   note="Trusted base: spec.Canon (spec/grammar.go).", ref="4 C08"),
  "C09": dict(
   technique="property-based testing (rapid) of (abbreviation,value) offers against table membership; invariant checking over generated histories; native fuzzing of Get/Set in the thorough tier",
-  text="150k offers per quick run from pools of every version's abbreviations/values, case variants, padded, empty, raw bytes: Get succeeds iff the abbreviation is a metric of the version, Set iff additionally the value is legal; a failed Set leaves the object unchanged. Well-formedness invariant (every Get legal and non-empty, Vector() grammatical, every scoring method / Rating / Nomenclature returns without panic) on the zero value and after every step of 20k histories.",
+  text="150k offers per quick run from pools of every version's abbreviations/values, case variants, padded, empty, raw bytes: Get succeeds iff the abbreviation is a metric of the version, Set iff additionally the value is legal; a failed Set leaves the object unchanged; plus the exhaustive grid of every pooled abbreviation x every pooled value (incl. the long names used in the specification texts) on two objects per version. Well-formedness invariant (every Get legal and non-empty, Vector() grammatical, every scoring method / Rating / Nomenclature returns without panic) on the zero value and after every step of 20k histories.",
   note="Trusted base: spec/tables.go, spec/grammar.go.", ref="4 C09"),
  "C10": dict(
   technique="metamorphic property-based testing (rapid) plus an exhaustive metric x value grid",
@@ -56,7 +56,7 @@ P = {
   note="Severity orders transcribed from the specifications (listed in the evidence assumptions).", ref="4 C12"),
  "C13": dict(
   technique="property-based testing (rapid): string mix, header transplants and Vector() outputs offered to all four parsers; native fuzzing in the thorough tier",
-  text="For every generated string the number of accepting parsers must be <= 1; the body of a valid vector is transplanted under 16 header shapes; Vector() of generated objects of each version must be accepted by that version only.",
+  text="For every generated string, and for the complete one-edit neighbourhood of 17 representative vectors, the number of accepting parsers must be <= 1; the body of a valid vector is transplanted under 16 header shapes; Vector() of generated objects of each version must be accepted by that version only.",
   note="Implementation-only relation (count of acceptors); C01 anchors membership.", ref="4 C13"),
  "C14": dict(
   technique="randomised concurrent workloads compared with their sequential execution under the Go race detector; property-based history-independence and aliasing checks",
@@ -72,7 +72,7 @@ P = {
   note="Trusted base: spec.NomenclatureV4.", ref="4 C16"),
  "C17": dict(
   technique="property-based testing (rapid) with runtime allocation counters (testing.AllocsPerRun) as the oracle",
-  text="2.5k valid vectors per version per quick run (all subsets of optional metrics / layouts / U spellings; coverage of every optional metric and U spelling enforced); ParseVector <=1, Vector() =1, Get/Set (legal and illegal value) =0, every scoring method, Rating, Nomenclature =0 allocations. Minimum of up to 4 measurements on a miss. Own process, no race detector.",
+  text="Exhaustively every optional metric x every value, alone and with all other optional metrics defined (the shapes that expose one lenVec branch), plus 2.5k valid vectors per version per quick run (all subsets of optional metrics / layouts / U spellings; coverage of every optional metric and U spelling enforced); ParseVector <=1, Vector() =1, Get/Set (legal and illegal value) =0, every scoring method, Rating, Nomenclature =0 allocations. Minimum of up to 4 measurements on a miss. Own process, no race detector.",
   note="Measured on the default toolchain go1.23.5 linux/amd64, steady state.", ref="4 C17"),
  "C18": dict(
   technique="property-based testing (rapid): single-defect injection with the expected error known by construction",
